@@ -35,16 +35,20 @@ def zipMismatchLine : Text → Text → Option Text
   | _, [] => none
   | a :: as, b :: bs => if a = b then (zipMismatchLine as bs).map (a :: ·) else some []
 
+/-- body of the narrowing loop for one line: `whitespace_idx` is the byte offset of the first
+    mismatch (else `line.len()`); the prefix shrinks to `line[..whitespace_idx]` if that is
+    shorter than both -/
+def narrowStep (line pre : Text) : Text :=
+  match zipMismatchLine line pre with
+  | some p => if blen p < blen line ∧ blen p < blen pre then p else pre
+  | none => pre
+
 /-- second loop of `dedent`: whitespace-only lines are skipped -/
 def dedentNarrow (isWs : Char → Bool) : List Text → Text → Text
   | [], pre => pre
   | line :: rest, pre =>
     if line.all isWs then dedentNarrow isWs rest pre
-    else
-      let pre' := match zipMismatchLine line pre with
-        | some p => if blen p < blen line ∧ blen p < blen pre then p else pre
-        | none => pre
-      dedentNarrow isWs rest pre'
+    else dedentNarrow isWs rest (narrowStep line pre)
 
 def dedentOut (isWs : Char → Bool) (pre : Text) : List Text → Text
   | [] => []
